@@ -168,10 +168,12 @@ def run(case):
                 m = box[tuple(ib[isl])]
             mech = KEY_MIXED if m else None
             w = dict(ctx, island=isl, extent=ia.get(isl) or ib.get(isl), mixed_polarity=m)
-            npix = size.get(tuple(ia.get(isl) or ib.get(isl) or ()), 99)
-            if npix <= 6:
-                # fewer pixels than the six parameters of a component: the finder's own small-island regime, where the
-                # fit is degenerate and rounding differences of the bounded optimiser are amplified without limit
+            ext_ = ia.get(isl) or ib.get(isl) or (0, 99, 0, 99)
+            npix = size.get(tuple(ext_), 99)
+            thin = min(ext_[1] - ext_[0], ext_[3] - ext_[2]) <= 2
+            if npix <= 6 or thin:
+                # fewer pixels than the six parameters of a component, or an island only 1-2 pixels wide: the finder's own
+                # small-island regime (FITERRSMALL / FIXED2PSF by pixel count or shape), where the fit is degenerate and rounding differences of the bounded optimiser are amplified without limit
                 o.count('tiny_islands_not_judged_for_symmetry')
                 continue
             if m:
